@@ -20,8 +20,8 @@ open Sentinel.MetricLog
 /-! ## 1. round trip through `ToFatString` / `MetricItemFromFatString` -/
 
 /-- an accepted item is read back unchanged from its line -/
-theorem roundtrip_item (it : Item) (h : Valid it) : parseLine (dropCR (fat it)) = some it :=
-  parseLine_dropCR_fat it h
+theorem roundtrip_item (it : Item) (h : Valid it) : parseLine (fat it) = some it :=
+  parseLine_fat it h
 
 /-- a whole data file is read back as the list of items written to it -/
 theorem roundtrip_file (its : List Item) (h : ∀ it ∈ its, Valid it) : itemsFrom (serialise its) 0 = its :=
@@ -114,7 +114,7 @@ theorem cut_lines (its : List Item) (hv : ∀ it ∈ its, Valid it) (k : Nat) :
 
 /-- … and the items read are every item wholly before the cut, then whatever the fragment parses to -/
 theorem read_after_cut (its : List Item) (hv : ∀ it ∈ its, Valid it) (k : Nat) :
-    itemsFrom ((serialise its).take k) 0 = wholeLines its k ++ (parseLine (dropCR (fragment its k))).toList :=
+    itemsFrom ((serialise its).take k) 0 = wholeLines its k ++ tornParse (fragment its k) :=
   itemsFrom_take_serialise its hv k
 
 /-- `all_wholly_before_cut`, for every `k` -/
@@ -125,12 +125,12 @@ theorem all_wholly_before_cut (its : List Item) (hv : ∀ it ∈ its, Valid it) 
 /-- the fragment yields an item only if it still has 8 fields (and it is a prefix of the line that was
     being written) -/
 theorem fragment_parses_only_with_8_fields (its : List Item) (k : Nat) (x : Item)
-    (h : parseLine (dropCR (fragment its k)) = some x) :
-    8 ≤ (splitBar (dropCR (fragment its k))).length ∧
+    (h : parseLine ((fragment its k)) = some x) :
+    8 ≤ (splitBar (fragment its k)).length ∧
       ∃ it ∈ its, tornItem its k = some it ∧ fragment its k <+: fat it := by
   refine ⟨parseLine_some_fields _ _ h, ?_⟩
   rcases fragment_prefix its k with h0 | h1
-  · rw [h0] at h; simp [dropCR, parseLine] at h
+  · rw [h0] at h; simp [parseLine] at h
   · exact h1
 
 /-- `only_written`, **partial**: for a cut on a line boundary exactly the items wholly before the cut
@@ -138,15 +138,28 @@ theorem fragment_parses_only_with_8_fields (its : List Item) (k : Nat) (x : Item
 theorem only_written_partial (its : List Item) (hv : ∀ it ∈ its, Valid it) (k : Nat) (hk : fragment its k = []) :
     itemsFrom ((serialise its).take k) 0 = wholeLines its k ∧ wholeLines its k <+: its := by
   refine ⟨?_, wholeLines_prefix its k⟩
-  rw [read_after_cut its hv k, hk]; simp [dropCR, parseLine]
+  rw [read_after_cut its hv k, hk]; simp [tornParse_nil]
 
 /-- no cut at all (`k` beyond the end): everything is read back -/
 theorem no_cut (its : List Item) (hv : ∀ it ∈ its, Valid it) (k : Nat) (hk : (serialise its).length ≤ k) :
     itemsFrom ((serialise its).take k) 0 = its := by
-  rw [read_after_cut its hv k, fragment_eq_nil_of_ge its k hk, wholeLines_of_ge its k hk]; simp [dropCR, parseLine]
+  rw [read_after_cut its hv k, fragment_eq_nil_of_ge its k hk, wholeLines_of_ge its k hk]; simp [tornParse_nil]
 
 example : fragment [({ ts := 1000, res := [97], pass := 1, block := 0, complete := 0, error := 0, rt := 0, occ := 0, conc := 0, cls := 0 } : Item)] 45 = [] := by
   decide
+
+/-- the full-buffer rule of `readLine`: a torn last line whose length is a positive multiple of the
+    8192-byte reader buffer is not delivered at all (the reassembly loop meets EOF right after a full chunk
+    and returns the error instead of the line) — then exactly the items wholly before the cut are read,
+    even if the fragment lacks nothing but its LF -/
+theorem full_buffer_tail_dropped (its : List Item) (hv : ∀ it ∈ its, Valid it) (k : Nat)
+    (hb : (fragment its k).length % bufSize = 0) :
+    itemsFrom ((serialise its).take k) 0 = wholeLines its k := by
+  rw [read_after_cut its hv k]; simp [tornParse, tailLine, hb]
+
+/-- whatever the torn line contributes was parsed from the fragment -/
+theorem torn_item_from_fragment (its : List Item) (k : Nat) (x : Item) (h : x ∈ tornParse (fragment its k)) :
+    parseLine (fragment its k) = some x := tornParse_mem _ x h
 
 /-! ## 5. L1 → L0: the search of a fresh searcher -/
 
@@ -387,7 +400,7 @@ theorem search_after_data_cut_partial (now maxSize maxFiles : Nat) (hnow : now /
     (hcov : Covered (runEvents (Writer.new now maxSize maxFiles) evs).files b) :
     ∃ extra, (find (cutData (init ++ [cur]) k) {} b e res).2
         = specFind (retained init ++ wholeLines cur.lines k) b e res ++ extra ∧
-      (∀ x ∈ extra, x ∈ (parseLine (dropCR (fragment cur.lines k))).toList) ∧
+      (∀ x ∈ extra, x ∈ tornParse (fragment cur.lines k)) ∧
       (fragment cur.lines k = [] → extra = []) ∧
       (∀ x ∈ specFind (retained init ++ wholeLines cur.lines k) b e res, x ∈ retained (init ++ [cur])) := by
   have h := runEvents_inv (Writer.new now maxSize maxFiles) evs hok (inv_new now maxSize maxFiles)
@@ -404,7 +417,7 @@ theorem search_after_data_cut_partial (now maxSize maxFiles : Nat) (hnow : now /
     | cons x r =>
       have := h2 x (by rw [hx]; simp)
       rw [hfr] at this
-      simp [dropCR, parseLine] at this
+      simp [tornParse_nil] at this
   · intro x hx
     have := (specFind_sound _ _ _ _ _ hx).1
     rw [retained_append]
